@@ -407,6 +407,10 @@ def _rowwise(prog: Program, res: Result, lb: int):
             # state at the time of the assignment: assumptions made so far (prefix of the trail)
             pre = f.trail[: e.trail_len]
             x = sc.exc(val, sc.MAXH)
+            vk = vkey(val)
+            if vk.startswith("PERM(") and vk.endswith(")"):
+                # a reordering of a field has the excess of that field
+                x = sym._plain_call("EXC", [Rat.atom(f"F<{vk[5:-1]}>"), sc.MAXH])
             xs = _sign_from_trail(pre, x)
             okg = xs is not None and "+" not in xs
             why = f"guarded by excess({vkey(val)[:40]}, max_height) <= 0"
@@ -430,6 +434,22 @@ def _rowwise(prog: Program, res: Result, lb: int):
                               path=[k for k, tr, ln in pre][-5:])
     res.count("rowwise_select_events", n_sel)
     res.floor("rowwise_select_events", 4)
+    # point_sort returns a permutation of the points it is given
+    ps = [n for n in ast.walk(fi.node) if isinstance(n, ast.FunctionDef) and n.name == "point_sort"]
+    if ps:
+        okp = True
+        rets = [r for r in walk_no_nested(ps[0]) if isinstance(r, ast.Return) and r.value is not None]
+        for r in rets:
+            v = r.value
+            good = (isinstance(v, ast.ListComp) and len(v.generators) == 1 and not v.generators[0].ifs and isinstance(v.elt, ast.Name)
+                    and isinstance(v.generators[0].target, ast.Tuple) and len(v.generators[0].target.elts) == 2
+                    and isinstance(v.generators[0].target.elts[1], ast.Name) and v.generators[0].target.elts[1].id == v.elt.id
+                    and isinstance(v.generators[0].iter, ast.Call) and attr_chain(v.generators[0].iter.func) == "sorted"
+                    and "zip(distances, other_points)" in ast.unparse(v.generators[0].iter))
+            okp = okp and good
+        res.ob("R01.1", "row-wise: point_sort returns the given points reordered (unfiltered comprehension over sorted(zip(distances, other_points)))", okp and bool(rets), prog.loc(fi, ps[0]))
+        if not (okp and rets):
+            res.violation("R01.1", "point_sort-not-a-permutation", prog.loc(fi, ps[0]), q, "point_sort no longer returns a plain reordering of the points it is given: the reduced fields are not sub-fields of the evaluated sparse field")
     # sweep protocol: compute_g_functions before size
     seq = []
     for n in ast.walk(fi.node):
@@ -561,6 +581,8 @@ VARIANTS = [
               "        return selection_key, selected_coordinates")], "R01.2"),
     Variant("row-wise removal accepts the current field when it fails", "break",
             [(SR, "                    if t_e <= 0.0:\n                        # highT_e = T_e\n                        nbh_max = nbh", "                    if t_e >= 0.0:\n                        # highT_e = T_e\n                        nbh_max = nbh")], "R01.1"),
+    Variant("row-wise removal starts from the dense field instead of the sparse one that was shown feasible", "break",
+            [(SR, "                selected_coordinates = starting_field\n                selected_specifier = lower_field_specifier", "                selected_coordinates = upper_field[1:]\n                selected_specifier = lower_field_specifier")], "R01.1"),
     Variant("excess_of_interest renamed", "benign",
             [(SR, "        excess_of_interest = max(negative_excess_values)\n\n        # but some conditions", "        excess_of_interest = max(negative_excess_values)\n        chosen_excess = excess_of_interest\n        excess_of_interest = chosen_excess\n\n        # but some conditions")]),
     Variant("max_height hoisted into a local in search()", "benign",
